@@ -66,6 +66,16 @@ CHECKS = {
         technique="TLA+ spec Weighted.tla; TLC over all tree shapes <= 3/4 leaves x weights 0..3, dynamic lists and construction sequences (Proportional as cross-multiplied invariant for every shape); replay on real Weighted/WeightedPair/WithWeightedItem/DynWeighted with marker members; empirical member frequencies vs the law",
         text="TLC checks for every binary tree shape and weight assignment that exactly one member of positive weight is delegated to, that P(leaf) x total = weight for every nesting, that all-zero is the zero-weight error and that chain construction overflows exactly when the running sum exceeds the maximum (sticky afterwards); each tree, list and construction sequence is executed on the real combinators (members are markers that count invocations and return an identifiable individual) and member frequencies over 60k/1M selections are compared with the derived law.",
         note="Trees are carrier enums around the real WeightedPair (types are static, shapes are data). Weights near u32::MAX are modelled near WMax=100."),
+    "C14": dict(
+        cat="model_checking", ref="DESIGN.md §4 C14",
+        technique="TLA+ spec Compose.tla (big-step Eval threading stream position, call count and call log); TLC over every well-typed expression of depth <= 2 x input shape x failure position with LeftToRight / StopsAtFirstFailure / ErrorLocates invariants; every case replayed on the real combinators built through the Composable API; random deeper compositions trace-validated",
+        text="Evaluation order, data flow, randomness consumption and error location of then / and / map (pair, array, vector) / repeat / identity / constant and the Mutate / Recombine wrappers (by value and by reference) are an explicit evaluation function; TLC enumerates all small well-typed expressions with a failure injected at every component call and checks the clauses; each case is executed on the real combinators with component operators that log (id, input, stream position) under a counting RNG, comparing value, error path, call log and words consumed; random compositions of depth 5 (tens of calls) are checked by TLC against the same function.",
+        note="Combinator and error types are private to ec-core; the harness builds compositions with the public Composable methods and reads error variants from Debug/Display/source(). Select / GenomeExtractor / GenomeScorer wrappers are covered under C15-C17."),
+    "C18": dict(
+        cat="model_checking", ref="DESIGN.md §4 C18",
+        technique="TLA+ spec Choices.tla; TLC over all collections <= 4/6 (with duplicates) and all size pairs; every case replayed in all 17 conversion flavours and 6 collectors; random uses trace-validated; position frequencies vs the uniform law",
+        text="Empty collections must be rejected at build time in every flavour (Vec / array / slice; owning, borrowing, cloning; into_ / to_distribution; OneOfCloning::new, ChooseCloning::new, the macro); num_choices must equal the number of members through the trait by value, & and &mut; samples must be that very member (by address for borrowing flavours) and each position equally likely (60k / 2M samples per flavour and size); collection generators must return exactly the requested number of consecutive stream elements for Vec, Bitstring, Plushy and a nested population, consulting the element generator exactly that many times.",
+        note="Statistical part at per-cell alpha 1e-12. Assumes the RNG is uniform."),
     "C15": dict(
         cat="model_checking", ref="DESIGN.md §4 C15",
         technique="TLA+ spec Ordering.tla: order laws checked by TLC on the small domain; one implementation test per spec case (every pair, cross pair, vector pair) evaluated on Score, Error, TestResult, TestResults, EcIndividual; construction clause trace-validated",
